@@ -285,8 +285,9 @@ Print Assumptions C10_reaches_only_missing.
     comparison function - it is never consulted): [TypeNotFound m] iff a field of some
     item-eligible entry ([item_entry], Model/Renumber.v: not substituted, namespaced, Composite /
     Variant) reaches [m] - resolved under the entry's own typed parameters with the field's
-    recorded type name, [entry_reaches_missing] - and [Ok] otherwise.  No "first failing entry"
-    is needed: every failure is the same one. *)
+    recorded type name, [entry_reaches_missing] - and [Ok] otherwise, and the [Ok] result is
+    emitted without failure (as in [C10_total]).  No "first failing entry" is needed: every
+    failure is the same one. *)
 Theorem C10_missing_id_generate :
   forall r s rank m, V.Model.MissingId.generable_but r s rank m ->
   forall teq, V.Model.Renumber.unique_item_paths r s -> dr_recursive (s_dreg s) = [] ->
@@ -295,7 +296,7 @@ Theorem C10_missing_id_generate :
      generate r s teq = Err (ETypeNotFound m)) /\
     (~ (exists e, In e r /\ V.Model.Renumber.item_entry s (snd e) = true /\
                   V.Model.MissingId.entry_reaches_missing r (snd e) m) ->
-     exists items, generate r s teq = Ok items).
+     exists items, generate r s teq = Ok items /\ exists toks, emit_module s items = Ok toks).
 Proof. exact V.Proofs.MissingIdGen.missing_id_generate. Qed.
 Print Assumptions C10_missing_id_generate.
 
@@ -402,7 +403,8 @@ Theorem C10_gen_verdict_model :
   forall r s rank m, V.Model.MissingId.generable_but r s rank m ->
   forall teq, V.Model.Renumber.unique_item_paths r s -> dr_recursive (s_dreg s) = [] ->
     match fst (V.Corr.CheckTG.gen_verdict r s) with
-    | V.Corr.CheckTG.DClean => exists items, generate r s teq = Ok items
+    | V.Corr.CheckTG.DClean =>
+        exists items, generate r s teq = Ok items /\ exists toks, emit_module s items = Ok toks
     | V.Corr.CheckTG.DFail x =>
         x = V.Corr.CheckTG.FMissing m /\ generate r s teq = Err (ETypeNotFound m)
     | V.Corr.CheckTG.DUnsure => True
